@@ -337,52 +337,96 @@ Lemma jk_lookup_ext w c t c' t' :
   jk_lookup w c t = jk_lookup w c' t'.
 Proof. intros Eu Ek. unfold jk_lookup. now rewrite Eu, Ek. Qed.
 
-(** cache invariant: every cached key belongs to the JWKS URL and key id it was fetched for *)
+(** cache invariant: every cached key belongs to the JWKS URL and key id it was fetched for, and
+    passed the validation of the instance that fetched it *)
 Definition jk_backed (H : string -> string) (w : jwks_world) (seen : list (jk_cfg * jtok)) (cch : cache) : Prop :=
   forall k r, lookup k cch = Some r ->
-    exists x, In x seen /\ jk_key H (fst x) (snd x) = Some k /\ jk_lookup w (fst x) (snd x) = JKKey (rs_sub r).
+    exists x, In x seen /\ jk_key H (fst x) (snd x) = Some k /\
+              jk_lookup w (fst x) (snd x) = JKKey (rs_sub r) (rs_active r) /\ jk_rejects (fst x) (rs_active r) = false.
 
-Lemma jk_run_transparent H w : forall h seen cch,
-  injective H -> g_jk_F4 H (seen ++ h) = false -> jk_backed H w seen cch ->
-  map sr_out (jk_run H w cch h) = map (fun x => jk_fresh w (fst x) (snd x)) h.
+Lemma p_jk_F4_self H x : p_jk_F4 H x x = false.
+Proof. unfold p_jk_F4. rewrite !collide_refl. now rewrite andb_false_r. Qed.
+
+Lemma jk_run_transparent fx11 H w : forall h seen cch,
+  injective H -> g_jk_F4 H (seen ++ h) = false -> (fx11 = true \/ g_F11 H (seen ++ h) = false) ->
+  jk_backed H w seen cch ->
+  map sr_out (jk_run fx11 H w cch h) = map (fun x => jk_fresh w (fst x) (snd x)) h.
 Proof.
-  induction h as [|[c t] h IH]; intros seen cch Hinj G B; [reflexivity|].
+  induction h as [|[c t] h IH]; intros seen cch Hinj G G11 B; [reflexivity|].
   cbn [jk_run]. unfold jk_exec.
   assert (G' : g_jk_F4 H ((seen ++ [(c, t)]) ++ h) = false) by (now rewrite <- app_assoc).
+  assert (G11' : fx11 = true \/ g_F11 H ((seen ++ [(c, t)]) ++ h) = false) by (now rewrite <- app_assoc).
+  assert (Keep : forall cch', (forall k0 r0, lookup k0 cch' = Some r0 -> lookup k0 cch = Some r0 \/
+                   (jk_key H c t = Some k0 /\ jk_lookup w c t = JKKey (rs_sub r0) (rs_active r0) /\
+                    jk_rejects c (rs_active r0) = false)) ->
+                 jk_backed H w (seen ++ [(c, t)]) cch').
+  { intros cch' N k0 r0 L0. destruct (N k0 r0 L0) as [L|(K0 & Lk0 & R0)].
+    - destruct (B k0 r0 L) as (x & I & Kx & Lx & Rx). exists x. splits; auto. apply in_or_app; auto.
+    - exists (c, t). splits; auto. apply in_or_app; right; left; reflexivity. }
   destruct (jk_key H c t) as [k|] eqn:K.
   - destruct (lookup k cch) as [r|] eqn:L.
     + cbn [map sr_out fst snd]. f_equal.
-      * destruct (B k r L) as ([c' t'] & I & K' & Lk). simpl in K', Lk.
+      * destruct (B k r L) as ([c' t'] & I & K' & Lk & Rk). simpl in K', Lk, Rk.
+        assert (Ic' : In (c', t') (seen ++ (c, t) :: h)) by (apply in_or_app; auto).
+        assert (Ic : In (c, t) (seen ++ (c, t) :: h)) by (apply in_or_app; right; left; reflexivity).
         assert (P : p_jk_F4 H (c', t') (c, t) = false).
-        { destruct (exists_pair_false _ (seen ++ (c, t) :: h) (c', t') (c, t) G) as [E|[P _]]; auto.
-          - apply in_or_app; auto.
-          - apply in_or_app; right; left; reflexivity.
-          - injection E as -> ->. unfold p_jk_F4. simpl.
-            assert (S : forall f, collide f f = false) by (intro f; apply collide_refl).
-            rewrite !S. now rewrite andb_false_r. }
+        { destruct (exists_pair_false _ _ (c', t') (c, t) G Ic' Ic) as [E|[P _]]; auto.
+          injection E as -> ->. apply p_jk_F4_self. }
         destruct (jk_key_inj H c' t' c t k Hinj K' K P) as [Eu Ek].
-        unfold jk_fresh. rewrite <- (jk_lookup_ext w c' t' c t Eu Ek), Lk. reflexivity.
-      * apply (IH (seen ++ [(c, t)])); auto.
-        intros k0 r0 L0. destruct (B k0 r0 L0) as (x & I & Kx & Lx). exists x. splits; auto. apply in_or_app; auto.
-    + cbn [map sr_out fst snd]. f_equal. apply (IH (seen ++ [(c, t)])); auto.
-      intros k0 r0 L0. destruct (jk_lookup w c t) as [| |o] eqn:Lk.
-      * destruct (B k0 r0 L0) as (x & I & Kx & Lx). exists x. splits; auto. apply in_or_app; auto.
-      * destruct (B k0 r0 L0) as (x & I & Kx & Lx). exists x. splits; auto. apply in_or_app; auto.
-      * simpl in L0. destruct (String.eqb_spec k0 k) as [->|N].
-        -- injection L0 as <-. exists (c, t). splits; auto. apply in_or_app; right; left; reflexivity.
-        -- destruct (B k0 r0 L0) as (x & I & Kx & Lx). exists x. splits; auto. apply in_or_app; auto.
-  - cbn [map sr_out fst snd]. f_equal. apply (IH (seen ++ [(c, t)])); auto.
-    intros k0 r0 L0. destruct (B k0 r0 L0) as (x & I & Kx & Lx). exists x. splits; auto. apply in_or_app; auto.
+        unfold jk_fresh. rewrite <- (jk_lookup_ext w c' t' c t Eu Ek), Lk.
+        destruct G11 as [->|G11]; simpl.
+        -- reflexivity.
+        -- (* without the repair: the two instances validate alike, and the fetching one accepted the key *)
+           assert (Ev : jk_validate c' = jk_validate c).
+           { destruct (exists_pair_false _ _ (c', t') (c, t) G11 Ic' Ic) as [E|[P11 _]]; [now injection E as -> _|].
+             unfold p_F11 in P11. simpl in P11. unfold jk_key in K, K'.
+             destruct (jk_enabled c') eqn:E1; [|discriminate]. destruct (jk_enabled c) eqn:E2; [|discriminate].
+             injection K as K. injection K' as K'. simpl in P11.
+             assert (Ef : jk_fields H c' t' = jk_fields H c t).
+             { unfold p_jk_F4 in P. simpl in P. rewrite E1, E2 in P. simpl in P. apply orb_false_iff in P as [P _].
+               apply (collide_inj _ _ P). apply Hinj. apply hex_inj. congruence. }
+             rewrite Ef in P11. assert (T : flds_eqb (jk_fields H c t) (jk_fields H c t) = true) by now apply flds_eqb_eq.
+             rewrite T in P11. simpl in P11. apply negb_false_iff in P11. now apply Bool.eqb_prop in P11. }
+           assert (Rc : jk_rejects c (rs_active r) = false) by (unfold jk_rejects in *; now rewrite <- Ev).
+           rewrite Rc. now rewrite andb_false_r.
+      * apply (IH (seen ++ [(c, t)])); auto; apply Keep; auto.
+    + cbn [map sr_out fst snd]. f_equal. apply (IH (seen ++ [(c, t)])); auto; apply Keep.
+      intros k0 r0 L0. destruct (jk_lookup w c t) as [| |o tr] eqn:Lk; auto.
+      destruct (jk_rejects c tr) eqn:R; auto.
+      simpl in L0. destruct (String.eqb_spec k0 k) as [->|N]; auto.
+      injection L0 as <-. right. simpl. auto.
+  - cbn [map sr_out fst snd]. f_equal. apply (IH (seen ++ [(c, t)])); auto; apply Keep; auto.
 Qed.
 
 (** Key cache of the jwt authenticator: for a collision-free SHA-256 and every
-    history of tokens — any claimed issuers, key ids and signing keys, templated or
-    literal JWKS URL — in which no two pre-images can be shifted against each
-    other, a token is verified with the cache exactly as without it: the key
-    comes from the JWKS URL rendered for THIS token's issuer. *)
-Theorem jk_cache_transparent : forall H w h,
-  injective H -> g_jk_F4 H h = false ->
-  map sr_out (jk_run H w [] h) = map (fun x => jk_fresh w (fst x) (snd x)) h.
+    history of tokens at any instances — any claimed issuers, key ids and signing keys,
+    templated or literal JWKS URL — in which no two pre-images collide and (unless
+    repaired) no two instances that differ in validate_jwk share a key (guard of C11-F11),
+    a token is verified with the cache exactly as without it: with the key published at
+    the JWKS URL rendered for THIS token's issuer, validated as THIS instance demands. *)
+Theorem jk_cache_transparent : forall fx11 H w h,
+  injective H -> g_jk_F4 H h = false -> (fx11 = true \/ g_F11 H h = false) ->
+  map sr_out (jk_run fx11 H w [] h) = map (fun x => jk_fresh w (fst x) (snd x)) h.
 Proof.
-  intros H w h Hinj G. apply (jk_run_transparent H w h [] []); auto. intros k r L. discriminate.
+  intros fx11 H w h Hinj G G11. apply (jk_run_transparent fx11 H w h [] []); auto. intros k r L. discriminate.
+Qed.
+
+Definition w_jk (validate : bool) : jk_cfg :=
+  {| jk_url := JLit "http://idp/jwks"; jk_headers := [("Accept", "application/json")]; jk_ttl := None;
+     jk_validate := validate |}.
+
+Definition w_jtok : jtok := {| t_iss := "isc"; t_kid := "k1"; t_signer := "isc"; t_sub := "alice" |}.
+
+(** C11-F11: a JWK whose certificate does not validate, cached through the authenticator with
+    validate_jwk: false, is used by the one on the same JWKS endpoint that validates *)
+Theorem F11_refuted :
+  exists w a b, (forall H, g_F11 H [a; b] = true) /\
+    forall H, map sr_out (jk_run false H w [] [a; b]) <> map (fun x => jk_fresh w (fst x) (snd x)) [a; b].
+Proof.
+  exists [("http://idp/jwks", [("k1", ("isc", false))])], (w_jk false, w_jtok), (w_jk true, w_jtok).
+  split.
+  - intro H. unfold g_F11. cbn [exists_pair existsb]. unfold p_F11. simpl.
+    assert (T : forall f, flds_eqb f f = true) by (intro f; now apply flds_eqb_eq). now rewrite T.
+  - intros H E. cbn [jk_run] in E. unfold jk_exec in E. simpl in E. rewrite String.eqb_refl in E. simpl in E.
+    discriminate.
 Qed.
